@@ -4,6 +4,7 @@ and the hand-written model (Model/CplxObject.lean, Props/C03Views.lean).  The pe
 Lemmas/PyObjBasic.lean, Lemmas/PyObjExt.lean and Lemmas/PyObjRot.lean; this file assembles them.
 -/
 import DsdVerif.Lemmas.PyObjBasic
+import DsdVerif.Lemmas.PyObjKernel
 import DsdVerif.Lemmas.PyObjExt
 import DsdVerif.Lemmas.PyObjRot
 import DsdVerif.Props.C03Views
@@ -24,7 +25,7 @@ theorem pyQuery_spec (s : Gen.ComplexS.Self) (canon : CKey) (v : View) (h : PCoh
   cases v with
   | sequence => exact Basic.view_sequence s canon h
   | «structure» => exact Basic.view_structure s canon h
-  | kernel => exact Basic.view_kernel s canon h
+  | kernel => exact Kernel.view_kernel s canon h
   | size => exact Basic.view_size s canon h
   | strandTable => exact Basic.view_strandTable s canon h
   | pairTable => exact Basic.view_pairTable s canon h
